@@ -1,8 +1,9 @@
 """
 C15 - dotted locations address exactly one node, the right one.
 
-Programs (E1): every ordered selection of <= 3 (thorough: <= 4) distinct items from 8 item templates whose
-simple names collide across scopes; every path of length <= 3 over the 12-name pool.  Oracle: an independent
+Programs (E1): every ordered selection of <= 3 (thorough: <= 4) distinct items from 11 item templates whose
+simple names collide across scopes (incl. locals and nested defs inside a coroutine, a method and a function);
+every path of length <= 3 over the 15-name pool.  Oracle: an independent
 resolver written directly over ``ast`` (exact qualified path or nothing).  Checked: find_in_ast returns that
 very node (identity) or None; RewriteAtQuery with a marker node replaces exactly that node, once.
 """
@@ -22,8 +23,12 @@ ITEMS = [
     ("A", "class A(object):\n    attr: int = 3\n\n    def m(self, a, b=2):\n        return a\n"),
     ("B", "class B(object):\n    attr: str = 's'\n\n    def m(self, a: int, *, k=1):\n        return a\n\n    class A(object):\n        z: int = 0\n\n        def m(self, a):\n            return a\n"),
     ("a", "def a(m):\n    return m\n"),
+    # locals and nested definitions inside function bodies whose names collide with module-level / class-level ones
+    ("fetch", "async def fetch(a, X: int = 0):\n    Y: int = 5\n\n    def g(b):\n        return b\n    return a\n"),
+    ("R", "class R(object):\n    def A(self, a):\n        attr: int = 9\n        z: int = 8\n        return a\n"),
+    ("outer", "def outer(k):\n    def g(m):\n        b: int = 4\n        return m\n    return g\n"),
 ]
-NAMES = ["X", "Y", "g", "h", "A", "B", "a", "b", "k", "m", "attr", "z"]
+NAMES = ["X", "Y", "g", "h", "A", "B", "a", "b", "k", "m", "attr", "z", "fetch", "R", "outer"]
 
 
 def all_paths():
@@ -132,7 +137,7 @@ class C15(core.Check):
     id = "C15"
     level = "exploration"
     rule = ("every module built from an ordered selection of distinct item templates (<=3 quick, <=4 thorough) x every path of "
-            "length <=3 over 12 colliding names is resolved by find_in_ast on the tree returned by ast_parse and compared by "
+            "length <=3 over 15 colliding names is resolved by find_in_ast on the tree returned by ast_parse and compared by "
             "node identity with an independent resolver; for every path that exists RewriteAtQuery replaces a marker and the "
             "result is compared with an independent replacement; non-trivial = the path resolves to a node; distinct = "
             "distinct (module, path)")
